@@ -10,6 +10,7 @@ connection.  "Promptly" is measured by the correspondence run, not proved.
 -/
 import DosModel.Proofs.DispatchTrace
 import DosModel.Proofs.ConnTableServe
+import DosModel.Proofs.ConnTableGuard
 import DosModel.Model.ConnTableCfg
 import DosModel.Gen.P2PFlow
 
@@ -600,6 +601,29 @@ theorem hist_other_peers_unaffected (ideal : Nat → Bool) (evs : List ConnTable
   obtain ⟨c, hc, hx⟩ := (run_tabInv (TabInv.init ideal) evs).r1 n t p h
   exact ⟨c, hc, hx.elim (fun h => Or.inl h.2) (fun h => Or.inr h.2)⟩
 
+open Dos.ConnTable in
+/-- **6g. the reply goes back on the connection the request came in on** (what the duplicate-connection guard
+buys): in every history, at a node running the code, when the application answers a message it holds and the
+accepting end of the connection the message came in on still runs (`client.run` has not returned there), the
+table entry `Reply` picks under the sender's id IS that connection — and if its wire is up the reply frame is put
+on it.  (An accepted connection that runs is its peer's entry: a second one from the same id is closed by the
+guard, and an entry is only deleted after its connection's `run` returned.) -/
+theorem hist_reply_goes_back_on_its_connection (ideal : Nat → Bool) (evs : List ConnTable.Ev) (b k : Nat) (h : Held)
+    (hib : ideal b = false) :
+    let s := ConnTable.run Cfg.code (ConnTable.init ideal) evs
+    (s.nodes b).held[k]? = some h → (s.conns h.conn).retA = false →
+      (s.nodes b).inb h.sender = some h.conn ∧
+      ((s.conns h.conn).clA = false → (s.conns h.conn).up = true →
+        ((ConnTable.step Cfg.code s (.appReply b k)).conns h.conn).repQ = (s.conns h.conn).repQ ++ [(h.nonce, h.g)]) := by
+  rw [conn_table_code_shape]
+  intro s hk hrun
+  have hG := (run_guardInv (TabInv.init ideal) (GuardInv.init ideal) evs).2
+  have hib' : s.ideal b = false := by
+    show (ConnTable.run Cfg.good (ConnTable.init ideal) evs).ideal b = false
+    rw [run_ideal]; exact hib
+  exact ⟨reply_target_is_arrival_connection hG b h (List.mem_of_getElem? hk) hib' hrun,
+         fun hcl hup => appReply_on_arrival_connection hG b k h hk hib' hrun hcl hup⟩
+
 /-- **the defect that was there (2071f1f)**: with every connection's nonces counting from 0, 6b is false — request
 0 goes out on connection 0, the connection is cut, request 1 goes out on connection 1, the peer's application
 answers request 0, the reply is written to connection 1 and handed to request 1. -/
@@ -649,5 +673,9 @@ example : ((ConnTable.run ConnTable.Cfg.code (ConnTable.init histIdeal) (histDem
     ((ConnTable.run ConnTable.Cfg.code (ConnTable.init histIdeal) (histDemo.take 7)).nodes 1).inb 0 = none := by decide
 example : ConnTable.touches (ConnTable.run ConnTable.Cfg.code (ConnTable.init histIdeal) (histDemo.take 4)) (.cut 0) 0 2 = false := by
   decide
+example : ((ConnTable.run ConnTable.Cfg.code (ConnTable.init histIdeal) (histDemo.take 2)).nodes 1).held[0]? =
+      some { conn := 0, sender := 0, nonce := ⟨1, 0⟩, g := 0 } ∧
+    ((ConnTable.run ConnTable.Cfg.code (ConnTable.init histIdeal) (histDemo.take 2)).conns 0).retA = false ∧
+    histIdeal 1 = false := by decide
 
 end Dos.Props.C17
